@@ -3,7 +3,7 @@
 //verif:stub openKV vOpenKV
 //verif:assume purge drivers end to end (PurgeBuildReverseIndex, PurgeDeleteUnused with scanContext, repoKeysScanner, bundleKeys, uploader, chunkUploader, copyIndexChunks, loadChunk, scanBlob, checkAndDeleteKey; errgroup from source) over in-memory stores; openKV (which opens the on-disk pebble/badger store) is routed to the in-memory KV model in symbolic runs, the native replay runs the real pebble store; progress tickers never fire; blob update times come from the store clock
 //verif:assume world: repository r with two committed bundles sharing a file (or the second bundle in a second repository r2 of the same context, so that there are more repositories than scanner slots at parallelism 1, or in a repository of an extra context sharing the blob store and named to purge) (uploaded through the real code, real cafs), the blobs of a third bundle that was deleted (old, unreferenced), and a bundle uploaded after the index was built; index chunk size 1..3 keys (thorough also 1000), purge parallelism 1..2
-//verif:cover VerifC14PurgeE2E several-chunks orphans-deleted two-repositories extra-context
+//verif:cover VerifC14PurgeE2E several-chunks orphans-deleted two-repositories extra-context late-upload-reuses-orphaned-blobs blob-store-without-touch
 package core
 
 import (
@@ -54,7 +54,18 @@ func VerifC14PurgeE2E() {
 	// a bundle uploaded after the index was built
 	vNextSecond()
 	before := w.blobKeys()
-	w.upload(map[string]string{"late": "uploaded-after-the-index"}, []string{"late"})
+	lateContent := "uploaded-after-the-index"
+	reuse := vChoose("lateReusesOrphan", 2) == 1
+	if reuse {
+		// the late bundle stores the very content of the deleted bundle: its blobs exist already, older than the index
+		lateContent = "orphaned-content"
+		vCover("late-upload-reuses-orphaned-blobs")
+		if vChoose("blobStoreWithoutTouch", 2) == 1 {
+			w.blob.noTouch = true // a backend that cannot refresh modification times (S3): duplicates are written again
+			vCover("blob-store-without-touch")
+		}
+	}
+	w.upload(map[string]string{"late": lateContent}, []string{"late"})
 	late := map[string]bool{}
 	for k := range w.blobKeys() {
 		if !before[k] {
@@ -71,11 +82,20 @@ func VerifC14PurgeE2E() {
 	for k := range late {
 		vAssert(after[k], "blobs-newer-than-the-index-are-kept")
 	}
-	for k := range w.orphans {
-		vAssert(!after[k], "old-unreferenced-blobs-are-deleted")
-		vCover("orphans-deleted")
+	if reuse {
+		// the orphaned blobs are in use again (and were refreshed by the late upload): nothing is left to delete
+		for k := range w.orphans {
+			vAssert(after[k], "blobs-taken-into-use-again-after-the-index-are-kept")
+		}
+		vAssert(len(after) == len(w.referenced)+len(w.orphans), "nothing-else-is-deleted-or-created")
+		vAssert(res != nil && res.DeletedEntries == 0, "reported-deleted-count")
+	} else {
+		for k := range w.orphans {
+			vAssert(!after[k], "old-unreferenced-blobs-are-deleted")
+			vCover("orphans-deleted")
+		}
+		vAssert(len(after) == len(w.referenced)+len(late), "nothing-else-is-deleted-or-created")
+		vAssert(res != nil && res.DeletedEntries == uint64(len(w.orphans)), "reported-deleted-count")
 	}
-	vAssert(len(after) == len(w.referenced)+len(late), "nothing-else-is-deleted-or-created")
-	vAssert(res != nil && res.DeletedEntries == uint64(len(w.orphans)), "reported-deleted-count")
 	w.downloadable("bundles-still-download-after-purge")
 }
